@@ -396,10 +396,11 @@ def rule_forwarding(ctx, rid, r):
                 ctx.ob(rid, hop, True, loc(caller, c), "forwarded unchanged (allow-listed coercions only)")
     ctx.floor(rid, "forwarding hops", n, 12)
     # the engine uses its worker_count parameter for the pool
-    a = arg(er.pool_call, 2, "worker_count")
+    sp = E.lifecycle(m, er).spawn_loops
+    a = E._range_arg(sp[0]) if len(sp) == 1 else None
     ok = a is not None and is_name(a, "worker_count")
-    ctx.ob(rid, f"{eng.short}/pool-size", ok, loc(eng, er.pool_call), "pool sized by worker_count" if ok else
-           "pool is not sized by the worker_count parameter", norm(er.pool_call))
+    ctx.ob(rid, f"{eng.short}/pool-size", ok, loc(eng, sp[0] if sp else None), "as many threads as worker_count" if ok else
+           "the number of threads started is not the worker_count parameter", norm(a) if a is not None else "")
     _check_source_var(ctx, rid, m, eng, "worker_count", f"{eng.short}.worker_count")
     _check_source_var(ctx, rid, m, eng, "max_errors", f"{eng.short}.max_errors")
 
